@@ -1712,8 +1712,9 @@ def partition_distance(cx, cy):
     where H is entropy, MI is mutual information and n is number of nodes)
     '''
     n = np.size(cx)
-    _, cx = np.unique(cx, return_inverse=True)
-    _, cy = np.unique(cy, return_inverse=True)
+    # Nx1 and 1-D vectors may be mixed (they would broadcast to NxN below)
+    _, cx = np.unique(np.ravel(cx), return_inverse=True)
+    _, cy = np.unique(np.ravel(cy), return_inverse=True)
     _, cxy = np.unique(cx + cy * 1j, return_inverse=True)
 
     cx += 1
